@@ -6,12 +6,13 @@ import Csverif.Driver.Wire
    layer `mockfs` (the model of providers/mock.py):
      reset <oip> <cs> <filter_events> <oidless_folder_trash_events> | create P T N | mkdir P | upload O T N | download O | rename O P | delete O
      | infop P | infoo O | existsp P | existso O | listdir O | hasho O | hashd T N | events | latest
-     | current | setcur <n|~> | dump
+     | current | setcur <n|~|x> | dump   (n = Python value + 1, ~ = None, x = not an int)
    layer `tree` (the reference tree, path-style ids):
      reset <cs> <nameFirst> <forbidBacktick> | create P T N | mkdir P | upload P T N | download P | rename P P
      | delete P | infop P | infoo P | existsp P | existso P | listdir P | hasho P | hashd T N
    layer `fshash`:  fast <hex> | data <hex> | dataold <hex> | path <mtime> <hex> | clear
    layer `connect`: reset | connect <id|~|!> | disconnect | reconnect
+   layer `fscursor`: reset | recv N | setcur <n|~|x> | drain | current | latest   (FileSystemProvider cursors, plain ints)
    P, O are `encStr` strings; contents are a token number T and a size N. -/
 namespace CS.Driver.MockFS
 open CS.Wire
@@ -52,6 +53,7 @@ def encRes : CS.MockFS.Res Cont Nat → String
   | .hash h => "hash " ++ encHash h
   | .events l => " ".intercalate ("events" :: l.map encEvent)
   | .cur n => s!"cur {n}"
+  | .cursorErr => "!Cursor"
   | .err e => encErr e
 
 structure DSt where
@@ -90,7 +92,10 @@ def parseOp (toks : List String) : Option (CS.MockFS.Op Cont) :=
   | ["events"] => some .events
   | ["latest"] => some .latestCursor
   | ["current"] => some .currentCursor
-  | ["setcur", v] => if v == "~" then some (.setCursor none) else v.toNat?.map (fun n => .setCursor (some n))
+  | ["setcur", v] =>
+    if v == "~" then some (.setCursor .none)
+    else if v == "x" then some (.setCursor .other)
+    else v.toNat?.map (fun n => .setCursor (.int n))
   | _ => none
 
 def encDump (s : CS.MockFS.St Cont) : String :=
@@ -240,6 +245,27 @@ def stepConn (s : CSt) (toks : List String) : CSt × String :=
     let (s', r) := CS.Conn.step connImpl s (.connect cr); (s', encConn s' r)
   | ["disconnect"] => let (s', r) := CS.Conn.step connImpl s .disconnect; (s', encConn s' r)
   | ["reconnect"] => let (s', r) := CS.Conn.step connImpl s .reconnect; (s', encConn s' r)
+  | _ => (s, "bad-op")
+
+/-! ### FileSystemProvider cursor layer -/
+
+def stepFsCursor (s : CS.FsCursor.St) (toks : List String) : CS.FsCursor.St × String :=
+  match toks with
+  | ["reset"] => ({ cursor := 0, latest := 0 }, "unit")
+  | ["recv", n] => (match n.toNat? with | some k => (CS.FsCursor.receive s k, "unit") | none => (s, "bad-arg"))
+  | ["setcur", v] =>
+    let val : Option CS.FsCursor.Val :=
+      if v == "~" then some .none else if v == "x" then some .other else v.toNat?.map .int
+    match val with
+    | none => (s, "bad-arg")
+    | some val =>
+      let (s', r) := CS.FsCursor.setCursor s val
+      (s', match r with | .ok => "unit" | .cursorErr => "!Cursor")
+  | ["drain"] =>
+    let (s', l) := CS.FsCursor.drain s
+    (s', " ".intercalate ("drain" :: l.map toString))
+  | ["current"] => (s, s!"cur {s.cursor}")
+  | ["latest"] => (s, s!"cur {s.latest}")
   | _ => (s, "bad-op")
 
 end CS.Driver.MockFS
